@@ -497,9 +497,9 @@ class ArithCmd(P):
 
 # ---------------------------------------------------------------- generator
 
-ALLOW_CMDS = [["ls"], ["cat", "f"], ["echo", "hi"], ["pwd"], ["true"], ["git", "status"], ["ok1"], ["ok1", "a", "b"], ["grep", "-r", "x", "."], ["wc", "-l"], ["head", "-n", "1"]]
+ALLOW_CMDS = [["2ok", "-l"], ["ls"], ["cat", "f"], ["echo", "hi"], ["pwd"], ["true"], ["git", "status"], ["ok1"], ["ok1", "a", "b"], ["grep", "-r", "x", "."], ["wc", "-l"], ["head", "-n", "1"]]
 ASK_CMDS = [["rm", "x"], ["foo"], ["git", "push"], ["askme"], ["mv", "a", "b"], ["chmod", "+x", "f"], ["./script.sh"], ["curl", "-X", "POST", "http://u"]]
-DENY_CMDS = [["denied"], ["nope", "x"], ["denied", "-f", "y"]]
+DENY_CMDS = [["denied"], ["nope", "x"], ["denied", "-f", "y"], ["7zdenied", "x", "a.7z"]]
 
 # the configuration every generated program is analysed under
 CONFIG_TEXT = """\
@@ -507,6 +507,8 @@ allow ok1
 ask askme "asked by rule"
 deny denied "denied by rule"
 deny nope *
+deny 7zdenied "a program whose name starts with a digit"
+allow 2ok
 allow-redirect /tmp/ok
 allow-redirect /tmp/okdir/**
 ask-redirect /tmp/q "ask redirect"
